@@ -1,5 +1,7 @@
 import Yaep.Spec.ParseTree
 import Yaep.Spec.Forest
+import Yaep.Lemmas.Analysis
+import Yaep.Model.FreeTree
 /-!
 # Concrete instances used by the non-vacuity `example`s of `Yaep/Props/C02 … C05`
 -/
@@ -31,6 +33,40 @@ theorem validKids :
 theorem valid : PT.IsDerivation g toks pt :=
   .node (rl := g.rules[0]) rfl rfl <|
     .cons (.node (rl := g.rules[1]) rfl rfl validKids) <| .cons (.leaf rfl) .nil
+
+theorem g_acyclic : ¬ Cyclic g := fun h => absurd (loopSet_ne_nil_of_cyclic g h) (by decide)
+
+/-- a grammar with the cycle `A : A`: `$S : A $eof`, `A : A | 'a'` -/
+def gLoop : Grammar :=
+  { rules := [
+      { lhs := 0, rhs := [.n 1, .t 1], order := [some 0, none] },
+      { lhs := 1, rhs := [.n 1], order := [some 0] },
+      { lhs := 1, rhs := [.t 2], order := [some 0] } ],
+    termNames := ["error", "$eof", "a"], termCodes := [-1, -2, 97],
+    ntNames := ["$S", "A"], errT := 0, eofT := 1, axiomN := 0, startN := 1 }
+
+def toksL : List Nat := [2, 1]
+
+/-- `A` derived with `k` applications of `A : A` on top of `A : 'a'` -/
+def chain : Nat → PT
+  | 0 => .node 2 [.leaf 2 0]
+  | k + 1 => .node 1 [chain k]
+
+def ptL (k : Nat) : PT := .node 0 [chain k, .leaf 1 1]
+
+theorem chain_valid : ∀ k, PT.ValidAt gLoop toksL (chain k) (.n 1) 0 1
+  | 0 => .node (rl := gLoop.rules[2]) rfl rfl (.cons (.leaf rfl) .nil)
+  | k + 1 => .node (rl := gLoop.rules[1]) rfl rfl (.cons (chain_valid k) .nil)
+
+theorem chain_depth : ∀ k, (chain k).depth = k + 1
+  | 0 => by decide
+  | k + 1 => by simp [chain, PT.depth, PT.depthList, chain_depth k]; omega
+
+theorem ptL_valid (k : Nat) : PT.IsDerivation gLoop toksL (ptL k) :=
+  .node (rl := gLoop.rules[0]) rfl rfl (.cons (chain_valid k) (.cons (.leaf rfl) .nil))
+
+theorem ptL_depth (k : Nat) : (ptL k).depth = k + 2 := by
+  simp [ptL, PT.depth, PT.depthList, chain_depth k]; omega
 
 end C02Ex
 
@@ -68,5 +104,24 @@ but is assigned cost 0, so pruning drops the only real tree -/
 def bad : Node := .alt [.anode "a" 0 [.alt []], .anode "b" 5 []]
 
 end C04Ex
+
+namespace C13Ex
+
+/-- `top(ALT(x(a), x(b, a)), a, ALT(…))`: the leaf `a`, the ALT node and the name `x` are
+shared -/
+def tab : Array NodeRec :=
+  #[.term 97 0, .term 98 1, .anode "x" 1 [0], .anode "x" 2 [1, 0], .alt [2, 3],
+    .anode "top" 0 [4, 0, 4]]
+
+/-- an abstract node with the empty name -/
+def tabE : Array NodeRec := #[.term 97 0, .anode "" 0 [0]]
+
+/-- a numbering of blocks (injective on the blocks of `tab`) -/
+def num : Block → Nat
+  | .node i => 3 * i
+  | .cell i p => 3 * (i + 100 * (p + 1)) + 1
+  | .name s => 3 * s.length + 2
+
+end C13Ex
 
 end Yaep
